@@ -267,6 +267,21 @@ def gen_world(rng, cfg, *, nroots=1, hostile=True, links=True, max_files=24, fam
             parent = rng.choice(dirs)
             nm = names.fresh(parent)
             w.add_hardlink(b2s(parent + b"/" + nm), tgt)
+        if rng.random() < 0.3:
+            # paths whose components CONCATENATE to the same string (q/zk, qz/k, qzk): hard links of
+            # one file and a plain copy - path identity must respect component boundaries
+            tgt = rng.choice(regular)
+            parent = rng.choice(dirs)
+            cand = [parent + b"/q/zk", parent + b"/qz/k", parent + b"/qzk"]
+            if not any(c in names.used or c[:c.rfind(b"/")] in names.used for c in cand):
+                for c in cand:
+                    names.used.add(c)
+                names.used.add(parent + b"/q"); names.used.add(parent + b"/qz")
+                w.add_dir(b2s(parent + b"/q")); w.add_dir(b2s(parent + b"/qz"))
+                w.add_hardlink(b2s(cand[0]), tgt)
+                w.add_hardlink(b2s(cand[1]), tgt)
+                src = [e for e in w.entries if e["t"] == "f" and e["p"] == tgt][0]
+                w.add_file(b2s(cand[2]), dict(src["c"]), mt=src.get("mt"))
         for _ in range(rng.choice([0, 0, 1, 2])):
             tgt = rng.choice(regular)
             parent = rng.choice(dirs)
